@@ -107,6 +107,9 @@ func c11Model(c *ctx, pool *c11Pool, cases []c11Case, outs []c11Outcome) {
 		switch o.D {
 		case "ok", "err", "panic":
 		default:
+			if strings.HasPrefix(k.Decoder, "cram.") && k.Decoder != "cram.Reader" {
+				res.hist("model:not-compared:" + k.Decoder + ":" + o.D)
+			}
 			if strings.HasPrefix(k.Decoder, "sam.Parse") || k.Decoder == "bam.parseAux" || k.Decoder == "bam.ReadIndex" || k.Decoder == "tabix.ReadFrom" || strings.HasSuffix(k.Decoder, "/raw") {
 				res.hist("model:not-compared:" + o.D)
 			}
@@ -172,6 +175,11 @@ func c11Model(c *ctx, pool *c11Pool, cases []c11Case, outs []c11Outcome) {
 			d.add("c11.tbi %s", hexs(k.bytes()))
 			impl = append(impl, c11ImplLine(o, o.Canon))
 			res.hist("model:tabix.ReadFrom:" + o.D)
+		case "cram.definition", "cram.Container", "cram.Block", "cram.Block.Value":
+			if line, ok := c11CramModelLine(d, k, o); ok {
+				impl = append(impl, line)
+				res.hist("model:" + k.Decoder + ":" + o.D)
+			}
 		case "sam.Aux/raw":
 			d.add("c11.auxsweep %s", hexs(k.bytes()))
 			line := "ok"
